@@ -1,43 +1,65 @@
 import MJ.Model.Store
 /-! Line driver for C15: a history of environment operations (see `harness/src/bin/c15.rs` for the
 token syntax) → per step: the operation's result and, for every live environment, the model's
-answer to `get_template` for every name, the `templates()` listing and the registry contents. -/
+answer to `get_template` for every name (source and load-time configuration of the stored
+compilation), the `templates()` listing, the registry contents and both configurations. -/
 open MJ.Store
 
 namespace C15Drive
 
-/-- source alphabet of the harness: sources 8 and 9 do not compile -/
-def compiles (s : Source) : Bool := s != 8 && s != 9
+/-- the `compiles` parameter of the model, measured by the harness on the real compiler
+    (`#cmp <syntax> <source> <0|1>` header lines): does the source compile under that syntax? -/
+abbrev CmpTable := List ((Nat × Nat) × Bool)
 
-/-- loader tables of the harness (index 0 is never installed) -/
-def loaderTable (l : Nat) (n : Name) : LoadRes :=
-  match l, n with
-  | 1, 0 => .src 0 | 1, 1 => .src 6 | 1, 2 => .src 3 | 1, 3 => .src 8
-  | 2, 0 => .src 1 | 2, 1 => .src 5 | 2, 2 => .err | 2, 3 => .src 2
-  | 3, 0 => .src 4 | 3, 1 => .src 14 | 3, 2 => .src 13 | 3, 3 => .missing
-  | 4, 0 => .src 7 | 4, 1 => .src 10 | 4, 2 => .src 12 | 4, 3 => .src 6
-  | 5, 0 => .missing | 5, 1 => .src 15 | 5, 2 => .src 9 | 5, 3 => .src 11
+def compilesWith (t : CmpTable) (cfg : LtCfg) (s : Source) : Bool :=
+  match t.find? (fun p => p.1 == (cfg.syn, s)) with
+  | some p => p.2
+  | none => true
+
+/-- loader tables of the harness (index 0 is never installed); table 6 answers by phase -/
+def loaderTable (l : Nat) (phase : Nat) (n : Name) : LoadRes :=
+  let row := if l == 6 then (if phase == 0 then 6 else 7) else l
+  match row, n with
+  | 1, 0 => .src 0 | 1, 1 => .src 6 | 1, 2 => .src 3 | 1, 3 => .src 8 | 1, 4 => .src 2
+  | 2, 0 => .src 1 | 2, 1 => .src 5 | 2, 2 => .err | 2, 3 => .src 2 | 2, 4 => .missing
+  | 3, 0 => .src 4 | 3, 1 => .src 14 | 3, 2 => .src 13 | 3, 3 => .missing | 3, 4 => .src 16
+  | 4, 0 => .src 7 | 4, 1 => .src 10 | 4, 2 => .src 12 | 4, 3 => .src 6 | 4, 4 => .src 17
+  | 5, 0 => .missing | 5, 1 => .src 15 | 5, 2 => .src 9 | 5, 3 => .src 11 | 5, 4 => .src 0
+  | 6, 0 => .err | 6, 1 => .src 9 | 6, 2 => .missing | 6, 3 => .err | 6, 4 => .src 8
+  | 7, 0 => .src 2 | 7, 1 => .src 6 | 7, 2 => .src 16 | 7, 3 => .src 17 | 7, 4 => .src 1
   | _, _ => .missing
 
 def builtin : Nat := 9
 
+/-- the driver's state: the model world plus what identifies the installed loaders (the model holds
+    loaders as functions) and the phase of the outside world -/
+structure DState where
+  w : World
+  loaderIds : List Nat
+  phase : Nat
+  cmp : CmpTable
+
 def initWorld : World := World.init [(1, builtin)] [(1, builtin)] [(1, builtin)]
+
+def b2n (b : Bool) : Nat := if b then 1 else 0
+
+def ltCode (c : LtCfg) : String := s!"{b2n c.trim}{b2n c.lstrip}{b2n c.ktn}{c.syn}{c.autoEscape}"
+
+def rtCode (r : RtCfg) : String :=
+  s!"{r.undefined}{r.formatter}{r.debug}{r.recursionLimit}{r.fuel}{r.pathJoin}{r.unknownMethod}"
 
 def showRes : Res → String
   | .done => "ok"
   | .compileError => "SE"
-  | .found s => s!"s{s}"
+  | .found t => s!"s{t.1}@{ltCode t.2}"
   | .notFound => "NF"
   | .loaderError => "E:InvalidOperation"
 
-def nameStr : Nat → String
-  | 0 => "a" | 1 => "b" | 2 => "c" | _ => "d"
-
-def insertSorted (p : Nat × Nat) : List (Nat × Nat) → List (Nat × Nat)
+def insertSorted (p : Nat × String) : List (Nat × String) → List (Nat × String)
   | [] => [p]
   | q :: t => if p.1 < q.1 || (p.1 == q.1 && p.2 ≤ q.2) then p :: q :: t else q :: insertSorted p t
 
-def sortPairs (l : List (Nat × Nat)) : List (Nat × Nat) := l.foldr insertSorted []
+def sortPairs (l : List (Nat × String)) : List (Nat × String) := l.foldr insertSorted []
 
 def showReg (r : Option Registry) (k : Nat) : String :=
   match r with
@@ -47,20 +69,23 @@ def showReg (r : Option Registry) (k : Nat) : String :=
     | none => "-"
     | some v => if v == builtin then "B" else toString v
 
-def showEnv (w : World) (i : Nat) : String :=
+/-- names 0..4 are the name alphabet, 5 and 6 the look-up-only names ("A", " a") -/
+def showEnv (d : DState) (i : Nat) : String :=
+  let w := d.w
   match w.stores[i]? with
   | none => "?"
   | some s =>
-    let gets := (List.range 4).map (fun n => s!"{nameStr n}={showRes (s.get compiles n).2}")
-    let listing := (sortPairs s.iter).map (fun p => s!"{p.1}:{p.2}")
+    let gets := (List.range 7).map (fun n => s!"{n}={showRes (s.get (compilesWith d.cmp) n).2}")
+    let listing := (sortPairs (s.iter.map (fun p => (p.1, s!"{p.2.1}@{ltCode p.2.2}")))).map (fun p => s!"{p.1}:{p.2}")
     let f := w.filters.view i
     let t := w.tests.view i
     let g := w.globals.view i
     let regs := [showReg f 0, showReg f 1, showReg t 0, showReg t 1, showReg g 0, showReg g 1]
-    s!"{",".intercalate gets};L={",".intercalate listing};R={",".intercalate regs}"
+    let rt := (w.rts[i]?).getD RtCfg.default
+    s!"{",".intercalate gets};L={",".intercalate listing};R={",".intercalate regs};C={ltCode s.cfg}/{rtCode rt}"
 
-def showEnvs (w : World) : String :=
-  "|".intercalate ((List.range w.stores.length).map (showEnv w))
+def showEnvs (d : DState) : String :=
+  "|".intercalate ((List.range d.w.stores.length).map (showEnv d))
 
 def parseReg (s : String) : Option Nat :=
   if s = "B" then some builtin else s.toNat?
@@ -70,80 +95,135 @@ def regKind (c : String) : Option RegKind :=
 
 /-- replay the loader lookups the engine made (names in `log`), flagging a lookup of a name the
     model already holds -/
-def replayLog (w : World) (e : Nat) : List Nat → World × Option Nat
+def replayLog (cmp : CmpTable) (w : World) (e : Nat) : List Nat → World × Option Nat
   | [] => (w, none)
   | m :: ms =>
     match w.stores[e]? with
     | none => (w, none)
     | some s =>
       let present := (find s.borrowed m).isSome || (find s.owned m).isSome
-      let w' := (w.step compiles (.store e (.get m))).1
-      let (w'', bad) := replayLog w' e ms
+      let w' := (w.step (compilesWith cmp) (.store e (.get m))).1
+      let (w'', bad) := replayLog cmp w' e ms
       (w'', if present then some m else bad)
 
-/-- one token → (new world, result string) -/
-def stepTok (w : World) (tok : String) : World × String :=
+def setLtField (c : LtCfg) (f v : Nat) : LtCfg :=
+  match f with
+  | 0 => { c with trim := v == 1 }
+  | 1 => { c with lstrip := v == 1 }
+  | 2 => { c with ktn := v == 1 }
+  | 3 => { c with syn := v }
+  | _ => { c with autoEscape := v }
+
+def setRtField (r : RtCfg) (f v : Nat) : RtCfg :=
+  match f with
+  | 0 => { r with undefined := v }
+  | 1 => { r with formatter := v }
+  | 2 => { r with debug := v }
+  | 3 => { r with recursionLimit := v }
+  | 4 => { r with fuel := v }
+  | 5 => { r with pathJoin := v }
+  | _ => { r with unknownMethod := v }
+
+def parseLog (f : List String) (i : Nat) : List Nat :=
+  match f[i]? with
+  | none => []
+  | some "-" => []
+  | some l => (l.splitOn ",").filterMap String.toNat?
+
+/-- a lookup of `n` on env `e` after replaying the loader lookups of the engine -/
+def lookup (d : DState) (e n : Nat) (log : List Nat) : DState × String :=
+  let (w', bad) := replayLog d.cmp d.w e log
+  let r := w'.step (compilesWith d.cmp) (.store e (.get n))
+  match bad with
+  | some m => ({ d with w := r.1 }, s!"!loader-consulted-for-held-template:{m}:{showRes r.2}")
+  | none => ({ d with w := r.1 }, showRes r.2)
+
+/-- one token → (new state, result string) -/
+def stepTok (d : DState) (tok : String) : DState × String :=
+  let w := d.w
+  let c := compilesWith d.cmp
   let f := tok.splitOn ":"
   let num (i : Nat) : Option Nat := (f[i]?).bind String.toNat?
   let live := w.stores.length
-  let guard (e : Nat) (k : Unit → World × String) : World × String :=
-    if e < live then k () else (w, "bad-env")
+  let guard (e : Nat) (k : Unit → DState × String) : DState × String :=
+    if e < live then k () else (d, "bad-env")
   match f.head?, num 1 with
+  | some "fl", some v =>
+    -- the outside world changes: every environment whose loader is table 6 now has another function
+    let w' := (List.range live).foldl (fun (w : World) e =>
+      if (d.loaderIds[e]?).getD 0 == 6 then (w.step c (.store e (.setLoader (loaderTable 6 v)))).1 else w) w
+    ({ d with w := w', phase := v }, "ok")
   | some "ab", some e => guard e fun _ =>
     match num 2, num 3 with
-    | some n, some s => let r := w.step compiles (.store e (.addBorrowed n s)); (r.1, showRes r.2)
-    | _, _ => (w, "bad-case")
+    | some n, some s => let r := w.step c (.store e (.addBorrowed n s)); ({ d with w := r.1 }, showRes r.2)
+    | _, _ => (d, "bad-case")
   | some "ao", some e => guard e fun _ =>
     match num 2, num 3 with
-    | some n, some s => let r := w.step compiles (.store e (.addOwned n s)); (r.1, showRes r.2)
-    | _, _ => (w, "bad-case")
+    | some n, some s => let r := w.step c (.store e (.addOwned n s)); ({ d with w := r.1 }, showRes r.2)
+    | _, _ => (d, "bad-case")
   | some "rm", some e => guard e fun _ =>
     match num 2 with
-    | some n => ((w.step compiles (.store e (.remove n))).1, "ok")
-    | none => (w, "bad-case")
-  | some "cl", some e => guard e fun _ => ((w.step compiles (.store e .clear)).1, "ok")
+    | some n => ({ d with w := (w.step c (.store e (.remove n))).1 }, "ok")
+    | none => (d, "bad-case")
+  | some "cl", some e => guard e fun _ => ({ d with w := (w.step c (.store e .clear)).1 }, "ok")
   | some "sl", some e => guard e fun _ =>
     match num 2 with
-    | some l => ((w.step compiles (.store e (.setLoader (loaderTable l)))).1, "ok")
-    | none => (w, "bad-case")
+    | some l => ({ d with w := (w.step c (.store e (.setLoader (loaderTable l d.phase)))).1,
+                          loaderIds := d.loaderIds.set e l }, "ok")
+    | none => (d, "bad-case")
+  | some "lt", some e => guard e fun _ =>
+    match w.stores[e]?, num 2, num 3 with
+    | some s, some fld, some v => ({ d with w := (w.step c (.store e (.setCfg (setLtField s.cfg fld v)))).1 }, "ok")
+    | _, _, _ => (d, "bad-case")
+  | some "ru", some e => guard e fun _ =>
+    match num 2, num 3 with
+    | some fld, some v =>
+      let r := (w.rts[e]?).getD RtCfg.default
+      ({ d with w := (w.step c (.setRt e (setRtField r fld v))).1 }, "ok")
+    | _, _ => (d, "bad-case")
   | some "cn", some e => guard e fun _ =>
-    if live ≥ 3 then (w, "full") else ((w.step compiles (.clone e)).1, "ok")
+    if live ≥ 3 then (d, "full")
+    else ({ d with w := (w.step c (.clone e)).1, loaderIds := d.loaderIds ++ [(d.loaderIds[e]?).getD 0] }, "ok")
   | some "r", some e => guard e fun _ =>
     match num 2 with
-    | some n =>
-      let log := match f[4]? with
-        | none => []
-        | some "-" => []
-        | some l => (l.splitOn ",").filterMap String.toNat?
-      let (w', bad) := replayLog w e log
-      let r := w'.step compiles (.store e (.get n))
-      match bad with
-      | some m => (r.1, s!"!loader-consulted-for-held-template:{m}:{showRes r.2}")
-      | none => (r.1, showRes r.2)
-    | none => (w, "bad-case")
-  | some "jk", some e => guard e fun _ => (w, "jk")  -- failing compiles/renders do not touch the store
+    | some n => lookup d e n (parseLog f 4)
+    | none => (d, "bad-case")
+  | some "hd", some e => guard e fun _ =>
+    match num 2 with
+    | some n => lookup d e n (parseLog f 3)
+    | none => (d, "bad-case")
+  | some "jk", some e => guard e fun _ => (d, "jk")  -- failing compiles/renders do not touch the environment
   | some "th", some e => guard e fun _ =>
     -- the phase ends with a lookup of every name
-    ((List.range 4).foldl (fun w n => (w.step compiles (.store e (.get n))).1) w, "ok")
+    ({ d with w := (List.range 5).foldl (fun w n => (w.step c (.store e (.get n))).1) w }, "ok")
   | some op, some e => guard e fun _ =>
     match op.toList with
     | ['a', k] =>
       match regKind (String.singleton k), num 2, (f[3]?).bind parseReg with
-      | some k, some name, some v => ((w.step compiles (.regAdd k e name v)).1, "ok")
-      | _, _, _ => (w, "bad-case")
+      | some k, some name, some v => ({ d with w := (w.step c (.regAdd k e name v)).1 }, "ok")
+      | _, _, _ => (d, "bad-case")
     | ['r', k] =>
       match regKind (String.singleton k), num 2 with
-      | some k, some name => ((w.step compiles (.regRemove k e name)).1, "ok")
-      | _, _ => (w, "bad-case")
-    | _ => (w, "bad-case")
-  | _, _ => (w, "bad-case")
+      | some k, some name => ({ d with w := (w.step c (.regRemove k e name)).1 }, "ok")
+      | _, _ => (d, "bad-case")
+    | _ => (d, "bad-case")
+  | _, _ => (d, "bad-case")
 
-def runCase (case : String) : String :=
+def runCase (cmp : CmpTable) (case : String) : String :=
   let toks := (case.splitOn " ").filter (· ≠ "")
-  let (_, outs) := toks.foldl (fun (acc : World × List String) tok =>
-    let (w', r) := stepTok acc.1 tok
-    (w', s!"{r}|{showEnvs w'}" :: acc.2)) (initWorld, [])
+  let d0 : DState := { w := initWorld, loaderIds := [0], phase := 0, cmp := cmp }
+  let (_, outs) := toks.foldl (fun (acc : DState × List String) tok =>
+    let (d', r) := stepTok acc.1 tok
+    (d', s!"{r}|{showEnvs d'}" :: acc.2)) (d0, [])
   " / ".intercalate outs.reverse
+
+def parseCmp (line : String) : Option ((Nat × Nat) × Bool) :=
+  match line.splitOn " " with
+  | ["#cmp", a, b, c] =>
+    match a.toNat?, b.toNat?, c.toNat? with
+    | some a, some b, some c => some ((a, b), c == 1)
+    | _, _, _ => none
+  | _ => none
 
 /-! foreign-value stream `fx:<x>:<site>:<consumer>:<via>`: the model predicts, for each of the 14
 variants of the harness, whether the consuming render accepts the exported value.  Threads: 0 =
@@ -194,16 +274,21 @@ def runForeign (case : String) : String :=
 
 end C15Drive
 
-partial def loop (h : IO.FS.Stream) (out : IO.FS.Stream) : IO Unit := do
+partial def loop (h : IO.FS.Stream) (out : IO.FS.Stream) (cmp : C15Drive.CmpTable) : IO Unit := do
   let line ← h.getLine
   if line.isEmpty then return ()
   let line := (line.dropEndWhile (· == '\n')).toString
-  let case := (line.splitOn "\t").head!
-  if case.startsWith "fx:" then
-    out.putStrLn s!"{case}\t{C15Drive.runForeign case}"
+  if line.startsWith "#" then
+    match C15Drive.parseCmp line with
+    | some e => loop h out (e :: cmp)
+    | none => loop h out cmp
   else
-    out.putStrLn s!"{case}\t{C15Drive.runCase case}"
-  loop h out
+    let case := (line.splitOn "\t").head!
+    if case.startsWith "fx:" then
+      out.putStrLn s!"{case}\t{C15Drive.runForeign case}"
+    else
+      out.putStrLn s!"{case}\t{C15Drive.runCase cmp case}"
+    loop h out cmp
 
 def main : IO Unit := do
-  loop (← IO.getStdin) (← IO.getStdout)
+  loop (← IO.getStdin) (← IO.getStdout) []
